@@ -1,9 +1,10 @@
 """MTVRP (rl4co.envs.routing.mtvrp): the 16 variants are DATA of one environment.
 
 Integer instance (spec/env/MTVRP.tla):
-  N, D, lh[1..N], bh[1..N], cap, open, lim, H, early[1..N], late[1..N], svc[1..N]
-  distances / times / limits in units of 1/grid, loads in units of 1/CAP_UNIT, INF = no bound.
-Exact float32 embedding: integer-distance point templates / grid (a power of two), speed 1,
+  N, D, lh[1..N], bh[1..N], cap, open, lim, H, early[1..N], late[1..N], svc[1..N], speed2
+  distances / times / limits in units of 1/grid, loads in units of 1/CAP_UNIT, INF = no bound,
+  speed2 = 2 * speed (speed in {1/2, 1, 2}; driving time 2 D / speed2 is an integer).
+Exact float32 embedding: integer-distance point templates / grid (a power of two), dyadic speed,
 quantities k/8 -> every sum the environment forms is a small dyadic rational.
 
 Extra (unused by the specification) fields make classes of instances identifiable:
@@ -47,11 +48,15 @@ def _routes(n):
             yield r
 
 
+def _tt(i, a, b):
+    return 2 * i["D"][a][b] // i.get("speed2", 2)
+
+
 def _schedule(i, r):
     """[(arrival, start)] along route r, time the vehicle leaves the last customer"""
-    D, t, prev, out = i["D"], 0, 0, []
+    t, prev, out = 0, 0, []
     for j in r:
-        arr = t + D[prev][j]
+        arr = t + _tt(i, prev, j)
         st = max(arr, i["early"][j - 1])
         out.append((arr, st))
         t = st + i["svc"][j - 1]
@@ -82,7 +87,7 @@ def _route_ok(i, r):
         return False
     if _route_len(i, r) > i["lim"]:
         return False
-    if not i["open"] and leave + i["D"][r[-1]][0] > i["H"]:
+    if not i["open"] and leave + _tt(i, r[-1], 0) > i["H"]:
         return False
     return True
 
@@ -90,6 +95,8 @@ def _route_ok(i, r):
 def instance_ok(i):
     """python twin of InstanceOK (TLC re-checks it: Solo invariant FamilyOK)"""
     D, n = i["D"], i["N"]
+    if any((2 * D[a][b]) % i["speed2"] for a in range(n + 1) for b in range(n + 1)):
+        return False
     for j in range(1, n + 1):
         l, b = i["lh"][j - 1], i["bh"][j - 1]
         if not ((l > 0 and b == 0) or (b > 0 and l == 0)) or l + b > i["cap"]:
@@ -97,13 +104,13 @@ def instance_ok(i):
         e, lt, s = i["early"][j - 1], i["late"][j - 1], i["svc"][j - 1]
         if not (0 <= e < lt and s >= 0):
             return False
-        if not D[0][j] < lt:
+        if not _tt(i, 0, j) < lt:
             return False
         if D[0][j] + (0 if i["open"] else D[j][0]) > i["lim"]:
             return False
-        if not i["open"] and not max(D[0][j], e) + s + D[j][0] < i["H"]:
+        if not i["open"] and not max(_tt(i, 0, j), e) + s + _tt(i, j, 0) < i["H"]:
             return False
-        if not e + s + D[j][0] <= i["H"]:
+        if not e + s + _tt(i, j, 0) <= i["H"]:
             return False
     return True
 
@@ -116,13 +123,13 @@ def label(i):
         sched, leave = _schedule(i, r)
         if any(arr == i["late"][j - 1] for (arr, st), j in zip(sched, r)):
             tight.add("tw_eq")
-        if not i["open"] and leave + i["D"][r[-1]][0] == i["H"]:
+        if not i["open"] and leave + _tt(i, r[-1], 0) == i["H"]:
             tight.add("depot_eq")
         if _route_len(i, r) == i["lim"]:
             tight.add("lim_eq")
         if sum(i["lh"][j - 1] for j in r) == i["cap"] or sum(i["bh"][j - 1] for j in r) == i["cap"]:
             tight.add("cap_eq")
-        if i["open"] and i["H"] < INF and leave + i["D"][r[-1]][0] > i["H"]:
+        if i["open"] and i["H"] < INF and leave + _tt(i, r[-1], 0) > i["H"]:
             tight.add("open_late")
     return sorted(tight)
 
@@ -163,11 +170,12 @@ def _limits(D, n, o, rnd, k):
     return pick[:k]
 
 
-def _windows(D, n, o, rnd, k):
+def _windows(D, n, o, rnd, k, speed2=2):
     """(early, late, svc, H) configurations: generator-like random ones and ones aimed at the
     boundaries (arrival exactly at a window end, return exactly at the depot's window end)"""
     out = []
-    d0 = [D[0][j] for j in range(1, n + 1)]
+    sp = {"D": D, "speed2": speed2}
+    d0 = [_tt(sp, 0, j) for j in range(1, n + 1)]
 
     def horizon(early, late, svc, slack):
         return max(l + s + d for l, s, d in zip(late, svc, d0)) + slack
@@ -189,9 +197,9 @@ def _windows(D, n, o, rnd, k):
     for _ in range(2 * k):
         r = rnd.choice([r for r in _routes(n) if len(r) >= 2])
         early = [rnd.choice((0, d, d + 2)) for d in d0]
-        svc = [rnd.choice((0, 1, 2)) for _ in d0]
+        svc = [rnd.choice((0, 1, 2, 3)) for _ in d0]
         late = [e + 40 for e in early]
-        tmp = {"D": D, "early": early, "late": late, "svc": svc}
+        tmp = {"D": D, "early": early, "late": late, "svc": svc, "speed2": speed2}
         sched, leave = _schedule(tmp, r)
         kind = rnd.choice(("tw", "tw", "depot")) if not o else "tw"
         if kind == "tw":
@@ -199,10 +207,10 @@ def _windows(D, n, o, rnd, k):
             arr, st = sched[pos]
             j = r[pos]
             if arr > early[j - 1]:
-                late[j - 1] = arr + rnd.choice((0, 0, 0, 1))
+                late[j - 1] = arr + rnd.choice((0, 0, 0, 1, -1))
             H = horizon(early, late, svc, rnd.choice((0, 2)))
         else:
-            H = leave + D[r[-1]][0] + rnd.choice((0, 0, 0, 1))
+            H = leave + _tt(sp, r[-1], 0) + rnd.choice((0, 0, 0, 1, -1, -2))
         out.append((early, late, svc, H))
     return out
 
@@ -210,37 +218,43 @@ def _windows(D, n, o, rnd, k):
 def build(tier, seed):
     rnd = random.Random(1000 + seed)
     insts, seen = [], set()
+    # (N, templates, instances per (variant, template) at speed 1, ... at each other speed (TW variants))
     if tier == "quick":
-        sizes = [(3, [(0, 0), (1, 0)], 8)]
+        sizes = [(3, [(0, 0), (1, 0)], 5, 1)]
     else:
-        sizes = [(3, [(0, 0), (1, 0), (2, 0), (0, 1), (1, 2)], 28), (4, [(0, 0), (1, 0)], 3)]
-    for (n, tmpl, per) in sizes:
+        sizes = [(3, [(0, 0), (1, 0), (2, 0), (0, 1), (1, 2)], 24, 4), (4, [(0, 0), (1, 0)], 3, 0)]
+    for (n, tmpl, per, per_speed) in sizes:
         for (o, b, l, tw) in VARIANTS:
             for (w, rot) in tmpl:
                 pts, g, D = points_for(n + 1, w, rot)
-                made = 0
-                tries = 0
-                dems = _demand_patterns(n, b, rnd, 12)
-                lims = _limits(D, n, o, rnd, 4) if l else [INF]
-                wins = _windows(D, n, o, rnd, 6) if tw else [([0] * n, [INF] * n, [0] * n, INF)]
-                combos = list(itertools.product(dems, lims, wins))
-                rnd.shuffle(combos)
-                for (lh, bh, cap), lim, (early, late, svc, H) in combos:
-                    if made >= per:
-                        break
-                    tries += 1
-                    i = {"N": n, "D": D, "lh": list(lh), "bh": list(bh), "cap": cap,
-                         "open": bool(o), "lim": lim, "H": H, "early": list(early),
-                         "late": list(late), "svc": list(svc), "pts": pts, "grid": g,
-                         "variant": variant_name(o, b, l, tw)}
-                    key = (n, w, rot, tuple(lh), tuple(bh), cap, o, lim, H,
-                           tuple(early), tuple(late), tuple(svc))
-                    if key in seen or not instance_ok(i):
-                        continue
-                    seen.add(key)
-                    i["tight"] = label(i)
-                    insts.append(i)
-                    made += 1
+                slices = [(2, per)]
+                if tw and per_speed:
+                    slices.append((1, per_speed))                       # speed 1/2
+                    if all((2 * x) % 4 == 0 for row in D for x in row):
+                        slices.append((4, per_speed))                   # speed 2
+                for (speed2, quota) in slices:
+                    made = 0
+                    dems = _demand_patterns(n, b, rnd, 12)
+                    lims = _limits(D, n, o, rnd, 4) if l else [INF]
+                    wins = (_windows(D, n, o, rnd, 6, speed2) if tw
+                            else [([0] * n, [INF] * n, [0] * n, INF)])
+                    combos = list(itertools.product(dems, lims, wins))
+                    rnd.shuffle(combos)
+                    for (lh, bh, cap), lim, (early, late, svc, H) in combos:
+                        if made >= quota:
+                            break
+                        i = {"N": n, "D": D, "lh": list(lh), "bh": list(bh), "cap": cap,
+                             "open": bool(o), "lim": lim, "H": H, "early": list(early),
+                             "late": list(late), "svc": list(svc), "speed2": speed2,
+                             "pts": pts, "grid": g, "variant": variant_name(o, b, l, tw)}
+                        key = (n, w, rot, tuple(lh), tuple(bh), cap, o, lim, H, speed2,
+                               tuple(early), tuple(late), tuple(svc))
+                        if key in seen or not instance_ok(i):
+                            continue
+                        seen.add(key)
+                        i["tight"] = label(i)
+                        insts.append(i)
+                        made += 1
     return with_ids(insts)
 
 
@@ -283,7 +297,8 @@ class MTVRP(Adapter):
                            "capacity_original": torch.tensor([[float(i["cap"])] for i in insts]),
                            "open_route": torch.tensor([[bool(i["open"])] for i in insts]),
                            "time_windows": tw, "service_time": svc, "distance_limit": lim,
-                           "speed": torch.ones(B, 1)}, batch_size=[B])
+                           "speed": torch.tensor([[i["speed2"] / 2.0] for i in insts],
+                                                 dtype=torch.float32)}, batch_size=[B])
 
     @staticmethod
     def _int(x, unit):
